@@ -150,4 +150,85 @@ theorem sortPaths_length (l : List P) : (sortPaths l).length = l.length := by
   | nil => rfl
   | cons x xs ih => simp only [List.foldr, insertSorted_length, ih, List.length_cons]
 
+theorem filter_not_length (q : P → Bool) (live : List P) :
+    (live.filter q).length + (live.filter (fun n => !q n)).length = live.length := by
+  induction live with
+  | nil => rfl
+  | cons a t ih =>
+    by_cases ha : q a = true
+    · simp [ha]; omega
+    · simp [ha]; omega
+
+theorem filter_partition (q : P → Bool) (live : List P) :
+    (live.filter q).length + (live.filter (fun n => !((live.filter q).contains n))).length = live.length := by
+  have hcongr : live.filter (fun n => !((live.filter q).contains n)) = live.filter (fun n => !q n) := by
+    apply List.filter_congr
+    intro n hn
+    simp [List.mem_filter, hn]
+  rw [hcongr]; exact filter_not_length q live
+
+/-- the generations never hold more nodes than there are -/
+theorem generations_total_le (edges : List (P × P)) :
+    ∀ (fuel : Nat) (live : List P), ((generations edges fuel live).map List.length).sum ≤ live.length := by
+  intro fuel
+  induction fuel with
+  | zero => intro live; simp [generations]
+  | succ n ih =>
+    intro live
+    unfold generations
+    split
+    · simp
+    · split
+      · simp
+      · have hp := filter_partition (fun n => !(edges.any (fun e => e.2 == n && live.contains e.1))) live
+        have := ih (live.filter (fun m => !(ready edges live).contains m))
+        simp only [List.map_cons, List.sum_cons]
+        unfold ready at this ⊢
+        omega
+
+/-- **Completeness of the layering**: when the generations account for every live node (which is what
+`nx.is_directed_acyclic_graph` comes to for the model: the layering consumes every node), every live node is in
+one of them. -/
+theorem generations_cover (edges : List (P × P)) :
+    ∀ (fuel : Nat) (live : List P),
+      ((generations edges fuel live).map List.length).sum = live.length →
+      ∀ x ∈ live, ∃ layer ∈ generations edges fuel live, x ∈ layer := by
+  intro fuel
+  induction fuel with
+  | zero =>
+    intro live h x hx
+    simp [generations] at h
+    have : live = [] := List.eq_nil_of_length_eq_zero h.symm
+    subst this; simp at hx
+  | succ n ih =>
+    intro live h x hx
+    unfold generations at h ⊢
+    split
+    · rename_i he
+      have : live = [] := by simpa using he
+      subst this; simp at hx
+    · rename_i hne
+      simp only [hne] at h
+      split
+      · rename_i hr
+        simp only [hr] at h
+        simp at h
+        have : live = [] := List.eq_nil_of_length_eq_zero h.symm
+        subst this; simp at hx
+      · rename_i hr
+        simp only [hr] at h
+        simp only [Bool.false_eq_true, if_false, List.map_cons, List.sum_cons] at h
+        have hp := filter_partition (fun n => !(edges.any (fun e => e.2 == n && live.contains e.1))) live
+        have hle := generations_total_le edges n (live.filter (fun m => !(ready edges live).contains m))
+        by_cases hxr : x ∈ ready edges live
+        · exact ⟨ready edges live, List.mem_cons_self .., hxr⟩
+        · have hx' : x ∈ live.filter (fun m => !(ready edges live).contains m) := by
+            simp [List.mem_filter, hx, hxr]
+          have heq : ((generations edges n (live.filter (fun m => !(ready edges live).contains m))).map
+              List.length).sum = (live.filter (fun m => !(ready edges live).contains m)).length := by
+            unfold ready at h hle ⊢
+            omega
+          obtain ⟨layer, hl, hxl⟩ := ih _ heq x hx'
+          exact ⟨layer, List.mem_cons_of_mem _ hl, hxl⟩
+
 end Viv.StepGraph
